@@ -98,32 +98,101 @@ def c13c(F, R):
             R.bad(f"sep|{c!r}", f"{c!r} is treated as a separator; programs using it as content change meaning", f["sp"])
 
 
+class RadixUnx(Exception):
+    pass
+
+
+def _prefix_alternatives(e, lets, depth=0):
+    """the (prefix, radix) pairs an Option-valued expression can carry: `s.strip_prefix(P).map(|d| (d, R))`, chained with `.or_else(|| ..)` / `.or(..)`; through one named local"""
+    e = peel(e)
+    while e.get("k") == "Block" and not e.get("stmts") and e.get("expr") is not None:
+        e = peel(e["expr"])
+    if depth > 6:
+        raise RadixUnx("prefix expression too deep")
+    if e.get("k") == "Path" and e.get("res_kind") == "Local" and e["res"] in lets:
+        return _prefix_alternatives(lets[e["res"]]["init"], lets, depth + 1)
+    if e.get("k") == "Closure":
+        return _prefix_alternatives(e["body"], lets, depth + 1)
+    if e.get("k") == "MethodCall" and e["name"] in ("or_else", "or") and len(e["args"]) == 1:
+        return _prefix_alternatives(e["recv"], lets, depth + 1) + _prefix_alternatives(e["args"][0], lets, depth + 1)
+    if e.get("k") == "MethodCall" and e["name"] == "map" and len(e["args"]) == 1:
+        r = peel(e["recv"])
+        cl = peel(e["args"][0])
+        if r.get("k") == "MethodCall" and r["name"] == "strip_prefix" and r["args"] and cl.get("k") == "Closure":
+            pref = lit_value(r["args"][0])
+            b = peel(cl["body"])
+            while b.get("k") == "Block" and not b.get("stmts") and b.get("expr") is not None:
+                b = peel(b["expr"])
+            if b.get("k") == "Tup" and len(b.get("elems", [])) == 2 and isinstance(lit_value(b["elems"][1]), int):
+                return [(pref, lit_value(b["elems"][1]), 1)]
+    raise RadixUnx("prefix expression not of the form strip_prefix(P).map(|d| (d, R)) [.or_else(..)]")
+
+
+def radix_sites(F):
+    """every `from_str_radix` call in Imm::from_str with the (prefix, radix) pairs under which it runs -> (fn, [(call, [(prefix, radix)], problem)])"""
+    p = F.method(P + "imm::Imm", "from_str", trait="core::str::traits::FromStr")
+    f = F.fn(p)
+    body = f["hir"]["value"]
+    from .p_parse import parent_map
+    pm = parent_map(body)
+    lets = {}
+    for st in walk(body, pats=False):
+        if st.get("k") == "Let" and st["pat"].get("k") == "PBinding" and st.get("init") is not None:
+            lets.setdefault(st["pat"]["name"], st)
+    out = []
+    for m in walk(body, pats=False):
+        if m.get("k") != "Call" or short(callee_of(m) or "") != "from_str_radix":
+            continue
+        rad = peel(m["args"][1])
+        # enclosing `if let <pat> = <init>` tests, innermost first
+        tests = []
+        x = m
+        while id(x) in pm:
+            par = pm[id(x)]
+            if par.get("k") == "If" and any(y is x for y in [par.get("then")]):
+                c = par["cond"]
+                while c.get("k") in ("DropTemps", "Use"):
+                    c = c["e"]
+                if c.get("k") == "LetExpr":
+                    tests.append(c)
+            x = par
+        alts, prob = None, None
+        lv = lit_value(rad)
+        for c in tests:
+            init = peel(c["init"])
+            if isinstance(lv, int) and init.get("k") == "MethodCall" and init["name"] == "strip_prefix" and init["args"]:
+                alts = [(lit_value(init["args"][0]), lv)]
+                break
+            if rad.get("k") == "Path" and rad.get("res_kind") == "Local":
+                # the radix is bound by this pattern: `Some((digits, radix))`
+                tups = [t_ for t_ in walk(c["pat"]) if t_.get("k") == "PTuple"]
+                bound = [b["name"] for b in walk(c["pat"]) if b.get("k") == "PBinding"]
+                if rad["res"] in bound and tups and len(tups[0].get("pats", [])) == 2 and any(b.get("k") == "PBinding" and b["name"] == rad["res"] for b in walk(tups[0]["pats"][1])):
+                    try:
+                        alts = [(a, b) for a, b, _ in _prefix_alternatives(c["init"], lets)]
+                    except RadixUnx as ex:
+                        prob = str(ex)
+                    break
+        out.append((m, alts, prob))
+    return f, out
+
+
+
 @rule("C13", "C13.e.radix-table", floor=3)
 @rule("C17", "C17.radix-table", floor=3)
 def c13e(F, R):
     """Imm::from_str: prefix 0x <-> radix 16, 0b <-> radix 2, no prefix <-> decimal"""
-    p = F.method(P + "imm::Imm", "from_str", trait="core::str::traits::FromStr")
-    f = F.fn(p)
+    f, sites = radix_sites(F)
     want = {"0x": 16, "0b": 2}
     found = {}
-    covered = set()
-    for n in walk(f["hir"]["value"]):
-        if n.get("k") != "If":
-            continue
-        c = n["cond"]
-        while c.get("k") in ("DropTemps", "Use"):
-            c = c["e"]
-        if c.get("k") != "LetExpr":
-            continue
-        init = peel(c["init"])
-        if init.get("k") == "MethodCall" and init["name"] == "strip_prefix" and init["args"]:
-            pref = lit_value(init["args"][0])
-            radixes = []
-            for m in walk(n["then"]):
-                if m.get("k") == "Call" and short(callee_of(m) or "") == "from_str_radix":
-                    radixes.append(lit_value(m["args"][1]))
-                    covered.add(id(m))
-            found[pref] = radixes
+    for m, alts, prob in sites:
+        if prob:
+            R.bad("radix|unextractable", f"UNEXTRACTABLE: {prob}", loc(m))
+        elif alts is None:
+            R.bad("radix|unguarded", "from_str_radix call that is not under a strip_prefix test", loc(m))
+        else:
+            for pref, r in alts:
+                found.setdefault(pref, []).append(r)
     for pref, r in want.items():
         if found.get(pref) == [r]:
             R.ok(f"prefix|{pref}", detail=f"{pref!r} -> radix {r}")
@@ -132,9 +201,6 @@ def c13e(F, R):
     for pref, r in found.items():
         if pref not in want and r:
             R.bad(f"prefix|{pref}", f"unexpected radix prefix {pref!r} -> {r}", f["sp"])
-    for m in walk(f["hir"]["value"]):
-        if m.get("k") == "Call" and short(callee_of(m) or "") == "from_str_radix" and id(m) not in covered:
-            R.bad("radix|unguarded", "from_str_radix call that is not under a strip_prefix test", loc(m))
     dec = [m for m in walk(f["hir"]["value"]) if m.get("k") == "MethodCall" and m["name"] == "parse"]
     if len(dec) == 1 and (dec[0].get("gargs") or [None])[-1] in ("i32", "u32", "i64"):
         R.ok("decimal", detail=f"unprefixed literals go through str::parse::<{dec[0]['gargs'][-1]}>")
@@ -241,6 +307,7 @@ def c13j(F, R):
 def c13k(F, R):
     """source text is turned into a number in exactly one place, `Imm::from_str` (sign, `0x`, `0b`, decimal): every other reader of a numeric operand - a CSR number, a data value - goes through it, so that all notations are accepted wherever a number is; a second hand-written reader (`from_str_radix` / `str::parse::<int>` elsewhere in the parser) knows fewer notations and the same program written with `0b..` is read differently"""
     home = F.method(P + "imm::Imm", "from_str", trait="core::str::traits::FromStr")
+    home_alts = {id(m): alts for m, alts, _ in radix_sites(F)[1]}
     n_home = 0
     for q, g in sorted(F.fns.items()):
         if "mir" not in g and "hir" not in g:
@@ -260,8 +327,10 @@ def c13k(F, R):
                 continue
             root = q.split("::{closure")[0]
             if root == home:
-                n_home += 1
-                R.ok(f"Imm::from_str|{n_home}", detail="the number reader", where=loc(c))
+                k_ = max(1, len(home_alts.get(id(c)) or []))
+                for _ in range(k_):
+                    n_home += 1
+                    R.ok(f"Imm::from_str|{n_home}", detail="the number reader", where=loc(c))
             else:
                 R.bad(f"{short(root)}|{short(cal) or 'parse'}", f"`{root}` reads a number from source text by itself (`{short(cal) or 'parse'}`) instead of through Imm::from_str: it does not know every notation Imm::from_str accepts (sign, 0x, 0b), so an operand written in the missing notation is rejected there and accepted everywhere else", loc(c))
     if n_home < 3:
